@@ -504,6 +504,51 @@ fn run_threads(case: &Case, out: &mut Out) {
         let sfx = suffix(case, &exec);
         out.emit(k, drain(&log) + &sfx);
       }
+      "ru" => {
+        // the event ev[1..] on this thread; while the probe is called during it, ANOTHER thread calls unsubscribe() on the
+        // subscription (it waits for the cells the delivering thread holds; once it has returned nothing may follow)
+        let started = Arc::new(std::sync::atomic::AtomicBool::new(false));
+        let slot: Arc<Mutex<Option<std::thread::JoinHandle<()>>>> = Arc::new(Mutex::new(None));
+        let (st2, slot2, sub2c) = (started.clone(), slot.clone(), sub.clone());
+        *RACE.lock().unwrap() = Some(Box::new(move || {
+          let st3 = st2.clone();
+          let h = std::thread::spawn(move || {
+            st3.store(true, std::sync::atomic::Ordering::SeqCst);
+            let u = sub2c.lock().unwrap().take();
+            if let Some(u) = u {
+              u.unsubscribe();
+            }
+          });
+          while !st2.load(std::sync::atomic::Ordering::SeqCst) {
+            std::thread::yield_now();
+          }
+          std::thread::sleep(std::time::Duration::from_millis(40));
+          *slot2.lock().unwrap() = Some(h);
+        }));
+        let inner = &ev[1..];
+        if inner[0].atom() == "emit" {
+          let mut s = ctx.subject(inner[1].nat());
+          match Notif::parse(&inner[2]) {
+            Notif::Next(v) => s.next(v),
+            Notif::Error(e) => s.error(e),
+            Notif::Complete => s.complete(),
+          }
+        } else if !time_event(inner, &exec) {
+          panic!("ru: unknown inner event");
+        }
+        let unused = RACE.lock().unwrap().take();
+        if unused.is_some() {
+          // the probe was not called during the event: the unsubscription follows on this thread
+          let u = sub.lock().unwrap().take();
+          if let Some(u) = u {
+            u.unsubscribe();
+          }
+        } else if let Some(h) = slot.lock().unwrap().take() {
+          let _ = h.join();
+        }
+        let sfx = suffix(case, &exec);
+        out.emit(k, drain(&log) + &sfx);
+      }
       "rq" => {
         // the event ev[1..] (an emission or a scheduler event) on this thread; while the probe is called during it, ANOTHER
         // thread asks the subscription is_closed().  (If that query has to wait for a cell the delivering thread holds, it is
